@@ -330,7 +330,50 @@ def run(p, report, tier):
                 bad = [s for s in (ca.out or []) if "a1" not in s.tokens or "a2" in s.tokens]
                 ok = not bad or not raw_qi
                 why = "exactly one append per candidate on every path"
-                if bad:
+                if bad and not raw_qi:
+                    # the list is a filtered one: the indices handed over have to be re-numbered in the same loop:
+                    # every `idx.append(E)` has E == len(<list>) and is followed, in the same block, by the
+                    # list's own append (so the index is the position the candidate is about to take)
+                    tr_ok = isinstance(qi, ast.Name)
+                    n_tr = 0
+                    if tr_ok:
+                        for x in ast.walk(L):
+                            if isinstance(x, ast.Call) and isinstance(x.func, ast.Attribute) and x.func.attr == "append" \
+                                    and base_name(x.func.value) == qi.id:
+                                n_tr += 1
+                                arg = ast.unparse(x.args[0]).replace(" ", "") if x.args else ""
+                                if arg != f"len({cand.id})":
+                                    tr_ok = False
+                                    continue
+                                # position: an append to the list follows on the same path (dominated by this statement's
+                                # enclosing branch) before the iteration ends
+                                tr = FuncTree(f.node)
+                                xs = tr.stmt_of(x)
+                                follows = False
+                                cur = xs
+                                while cur is not None and cur is not L:
+                                    blk = tr.block_of.get(cur)
+                                    if blk is None:
+                                        break
+                                    owner_, field_, idx_ = blk
+                                    for later in getattr(owner_, field_)[idx_ + 1:]:
+                                        if any(isinstance(y, ast.Call) and isinstance(y.func, ast.Attribute) and y.func.attr == "append"
+                                               and base_name(y.func.value) == cand.id for y in ast.walk(later)):
+                                            follows = True
+                                    if follows or owner_ is L:
+                                        break
+                                    cur = owner_
+                                if not follows:
+                                    tr_ok = False
+                        tr_ok = tr_ok and n_tr > 0
+                        # the re-numbered list is what is handed over, and it starts empty
+                        tr_ok = tr_ok and any(isinstance(d, ast.Assign) and any(isinstance(t, ast.Name) and t.id == qi.id for t in d.targets)
+                                              and isinstance(d.value, ast.List) and not d.value.elts for d in ast.walk(f.node))
+                    ok = tr_ok
+                    why = ("a filtered list; the indices handed over are re-numbered in the same loop (`" + qi.id +
+                           ".append(len(" + cand.id + "))` before the list's own append)") if tr_ok else \
+                        "a filtered list, and the indices handed over are not the positions in that list"
+                if bad and raw_qi:
                     kind = "no append" if "a1" not in bad[0].tokens else "two appends"
                     why = (f"{kind} on the path where: {describe(bad[0].facts)} - the list is shorter/longer than the "
                            "candidates while queried_indices still index the unfiltered candidates")
